@@ -591,7 +591,6 @@ func init() {
 		Assumptions: commonAssumptions})
 }
 
-
 func relName(r an.Rel) string {
 	switch r {
 	case an.EQ:
